@@ -16,18 +16,12 @@ def seq(present, *ops):
     while len(pairs) < 5: pairs.append((0, 0))
     return ('p%d_%s' % (present, '_'.join(names)), ', '.join([str(present)] + ['%d, %d' % p for p in pairs]))
 QUICK = [
-    seq(1, 'GET:0', 'SPEND:0', 'FLUSH', 'PFLUSH'),                 # spend a base coin through both layers
-    seq(0, 'ADD:0', 'GET:0', 'FLUSH', 'PFLUSH'),                   # create through both layers
     seq(0, 'ADD:0', 'SPEND:0', 'FLUSH', 'GET:0'),                  # FRESH coin created and spent in the child never reaches the parent
-    seq(1, 'SPEND:0', 'ADD:0', 'FLUSH', 'PFLUSH'),                 # spend then re-create (must not be FRESH): base ends with the new coin
-    seq(1, 'SPEND:0', 'SYNC', 'ADD:0', 'FLUSH', 'PFLUSH'),
-    seq(3, 'SPEND:0', 'SPEND:1', 'FLUSH', 'GET:1'),
-    seq(2, 'ADD:0', 'SPEND:1', 'SYNC', 'SPEND:0', 'FLUSH'),
     seq(1, 'PSPEND:0', 'ADD:0', 'FLUSH', 'PFLUSH'),                # parent has a spent dirty entry, child re-adds
-    seq(0, 'PADD:0', 'SPEND:0', 'FLUSH', 'PFLUSH'),                # parent FRESH coin spent via child: erased, never hits base
-    seq(1, 'GET:0', 'UNCACHE:0', 'SPEND:0', 'FLUSH'),
     seq(1, 'ADDOW:0', 'FLUSH', 'PFLUSH'),                          # overwrite an unfetched base coin
-    seq(1, 'ACCESS:0', 'ADDOW:0', 'SYNC', 'PSYNC', 'GET:0'),
+    seq(1, 'ADDOW:0', 'SPEND:0', 'FLUSH', 'PFLUSH'),               # overwrite then spend: base coin must end spent
+    seq(3, 'PSPEND:0', 'PSPEND:1', 'PFLUSH'),
+    seq(0, 'PADD:0', 'PFLUSH', 'ADDOW:0', 'FLUSH'),
 ]
 HARNESSES = [
     H('layers', 'layers.cpp', 'h_layers', link=LINK, entries=QUICK, shadow=['nofmt', 'nopool'], unwind=20, memunwind=112, timeout=600, objbits=11,
@@ -36,5 +30,5 @@ HARNESSES = [
       stubs=['PoolAllocator forwards to operator new (ref/nopool shadow of support/allocators/pool.h; PoolResource is C61)', 'tinyformat -> empty strings', 'FastRandomContext/ChaCha20 nondeterministic (unused: deterministic hasher keys)',
              'assertion_fail -> CBMC assertion', 'std::_Prime_rehash_policy integer model (tool/models/stl_models.cpp)', 'coin scripts are empty'],
       assumptions=['AddCoin(possible_overwrite=false) is only called when the coin is not visible in that layer (API contract)', 'the parent is not modified behind a child that already cached the key'],
-      bounds='2 keys, 12 operation sequences of <= 5 operations x base population shapes as listed; all coin values/heights/coinbase flags symbolic'),
+      bounds='2 keys, 6 operation sequences of <= 5 operations x base population shapes as listed in QUICK; all coin values/heights/coinbase flags symbolic. NOT decided (no verdict within 700 s): every sequence in which the child cache fetches a PRESENT coin from its parent (GetCoin/AccessCoin/SpendCoin of a base coin through two layers) and the FRESH-add + Flush sequences; the node value of std::unordered_map lives in an untyped byte buffer through which constant propagation of symbolic execution is lost, so list walks and script-length loops stop folding'),
 ]
